@@ -62,6 +62,9 @@ type Case struct {
 	IgnoreCancel bool `json:"ignore_cancel,omitempty"`
 	// Intercept: the fault-capable field interceptor is registered and active (C04).
 	Intercept bool `json:"intercept,omitempty"`
+	// DefaultRecover: no recover function is configured, gqlgen's own DefaultRecover
+	// presents panics ("internal system error"); the hook cannot be counted then.
+	DefaultRecover bool `json:"default_recover,omitempty"`
 }
 
 // Shared holds per-process immutable pieces.
@@ -245,12 +248,14 @@ func (in *Inst) Body() {
 	ctx = graphql.StartOperationTrace(ctx)
 	ex := executor.New(s.es)
 	ex.Use(FaultExt{Cur: func() *Env { return s.cur }})
-	ex.SetRecoverFunc(func(ctx context.Context, err any) error {
-		in.Env.mu.Lock()
-		in.Env.Panics++
-		in.Env.mu.Unlock()
-		return fmt.Errorf("PANIC:%v", err)
-	})
+	if !in.C.DefaultRecover {
+		ex.SetRecoverFunc(func(ctx context.Context, err any) error {
+			in.Env.mu.Lock()
+			in.Env.Panics++
+			in.Env.mu.Unlock()
+			return fmt.Errorf("PANIC:%v", err)
+		})
+	}
 	oc, errs := ex.CreateOperationContext(ctx, &graphql.RawParams{Query: in.C.Op.Text, Variables: in.C.Op.Vars})
 	if len(errs) > 0 {
 		for _, e := range errs {
@@ -302,7 +307,7 @@ func classify(msg string) string {
 		return "interceptor"
 	case strings.HasPrefix(msg, "EU@"):
 		return "coercion"
-	case strings.HasPrefix(msg, "PANIC:"):
+	case strings.HasPrefix(msg, "PANIC:"), msg == "internal system error":
 		return "panic"
 	case msg == "must not be null", msg == "the requested element is null which the schema does not allow":
 		return "nonnull"
@@ -395,7 +400,7 @@ func (in *Inst) compareRef(q Quirks) string {
 			np++
 		}
 	}
-	if in.Env.Panics != np {
+	if in.Env.Panics != np && !in.C.DefaultRecover {
 		return fmt.Sprintf("recover hook invoked %d times for %d injected panics", in.Env.Panics, np)
 	}
 	return ""
